@@ -9,50 +9,53 @@ holding the first and the last character of the span (for an empty span or a Pos
 holding that offset, the last line at end of input), and the markers point at the display cells
 of exactly those characters."
 
-The model (`Model/Text.lean`) is `formatter.rs` as written: the two peekable scans with `>=`, the
-`unwrap`s, `split_at`, the `Vec` indexing, the four snippet printers.  `spanSnippet` /
-`positionSnippet` compute WHAT is printed (`Snippet`: width of the number column and the rows:
-gutter, numbered text with its highlighted part, marker at a column, ellipsis); `render opt` writes
-it through the three callbacks of a `FormatOption`, so every statement below holds for the default
-and for every custom option; `displaySpan opt w sp = (spanSnippet w sp).map (render opt)` by
-definition.  The display width of a character is a parameter `width`.
+The model (`Model/Text.lean`) is `formatter.rs` as written (after the repair of F-FMT-1 and
+F-FMT-2: the empty input is displayed as one empty line, and in `display_position` the end of
+input belongs to the last line): the two peekable scans with `>=`, the `unwrap`s, `split_at`, the
+`Vec` indexing, `last_index`, the four snippet printers.  `spanSnippet` / `positionSnippet`
+compute WHAT is printed (`Snippet`: width of the number column and the rows: gutter, numbered text
+with its highlighted part, marker at a column, ellipsis); `render opt` writes it through the three
+callbacks of a `FormatOption`, so every statement below holds for the default and for every
+custom option; `displaySpan opt w sp = (spanSnippet w sp).map (render opt)` by definition.  The
+display width of a character is a parameter `width`.  `dispLines s` are the lines the formatter
+works on: `splitLines s` (C13_line_table), and one empty line for the empty input.
 
-THE FULL PROPERTY IS FALSE of the unchanged code, in exactly three ways (DESIGN §7):
+THE FULL PROPERTY IS STILL FALSE of the code in one way (DESIGN §7, not repairable: pinned by the
+snapshot test `display_span_single_line_far`):
 
-  F-FMT-1  `Span::new("",0,0).to_string()` panics           → `C14_counterexample_empty_input`
-  F-FMT-2  `Position::new(s, s.len()).to_string()` is empty → `C14_counterexample_position_eoi`,
-           for every `s`: `C14_position_eoi_renders_nothing`
   F-FMT-3  a span whose start is the first byte of a line other than the first is drawn from the
            previous line                                    → `C14_counterexample_line_start`,
            in general: `C14_line_start_drawn_from_previous_line`
 
-Full statement, for reference (false as it stands):
-  ∀ s a b, Valid ⟨s,a,b⟩ → ∃ sn, spanSnippet w ⟨s,a,b⟩ = .ok sn ∧ rows numbered correctly ∧
-     first numbered row = line of the first character (of the offset if a = b; last line at end
-     of input) ∧ last numbered row = line of the last character ∧ markers on their cells;
-  ∀ s p, IsBoundary s p → ∃ sn, positionSnippet w s p = .ok (some sn) ∧ the same for the offset.
+Full statement of the clause that fails, for reference (false as it stands):
+  ∀ s a b, Valid ⟨s,a,b⟩ → the first numbered row is the line of the first character of the span
+     (of the offset if a = b; the last line at end of input) and the start marker is on its cell.
 
-Proved, each with the excluded region as an explicit hypothesis:
+Proved at full strength:
 
 * `C14_table`                 every control character < 0x20 ↦ U+2400+c, 0x7f ↦ U+2421, others fixed
-* `C14_position_no_panic`     Display of a Position never panics: every input, every position — FULL
-* `C14_span_no_panic_partial` Display of a Span never panics — excluded: the empty input (F-FMT-1)
-* `C14_numbers_partial`       every numbered row carries the 1-based number of a line of the input and
-                              that line's text with control pictures — every valid span, F-FMT-3 cases
-                              included; excluded: only the empty input (nothing is printed there)
-* `C14_single_line_partial`   span inside one line (also empty spans, also at end of input): exactly
-                              gutter / that line with its number, the span highlighted / carets under
-                              exactly the cells of the span — excluded: start on the first byte of a
-                              later line (F-FMT-3)
+* `C14_span_no_panic`         Display of a Span never panics: every input (the empty one too), every span
+* `C14_position_no_panic`     Display of a Position never panics and prints a snippet: every input, every
+                              position (end of input too)
+* `C14_numbers`               every numbered row carries the 1-based number of a displayed line and that
+                              line's text with control pictures — every input, every valid span, F-FMT-3
+                              cases included
+* `C14_position`              a position in the line that holds it (strictly inside, or at the end of the
+                              last line = end of input): exactly gutter / that line with its number / one
+                              `^` under the cell at the offset
+* `C14_position_coverage`     … and every position of every input is in that situation
+
+Proved with the F-FMT-3 region as the only exclusion (explicit hypothesis `hf`):
+
+* `C14_single_line_partial`   span inside one line (also empty spans, at end of input, the empty input):
+                              exactly gutter / that line with its number, the span highlighted / carets
+                              under exactly the cells of the span
 * `C14_multi_line_partial`    span over several lines: `v` over the first cell of the first character on
                               its line, the fully covered lines (all if ≤ 3, else first, `...`, last),
                               the line of the last character, `^` under the last cell of the last
-                              character — excluded: F-FMT-3
-* `C14_partial_coverage`      the two theorems above cover every valid span of a non-empty input outside
+                              character
+* `C14_partial_coverage`      the two theorems above cover every valid span of every input outside
                               F-FMT-3: the excluded region is exactly that defect
-* `C14_position_partial`      position inside a line: that line with its number and `^` under the cell
-                              of the character at the offset — excluded: end of input (F-FMT-2)
-* `C14_position_coverage`     … and nothing else is excluded
 -/
 import PestTyped.Lemmas.TextDisplay
 namespace PestTyped
@@ -69,64 +72,94 @@ theorem C14_table (c : Char) (line : List Char) :
 example : visualize ['a', '\t', '\r', '\n', '\x7f', ' ', '中'] = ['a', '␉', '␍', '␊', '␡', ' ', '中'] := by
   decide
 
-/-- Displaying a `Position` never panics: any input (the empty one included), any position (end
-of input included), any option, any width function. -/
-theorem C14_position_no_panic (opt : FormatOption) (width : Char → Nat) (s : List Char) (p : Nat)
-    (hp : IsBoundary s p) : ∃ out, displayPosition opt width s p = .ok out := by
-  obtain ⟨r, hr⟩ := positionSnippet_ok width s p hp
-  unfold displayPosition
-  rw [hr]
-  cases r with
-  | none => exact ⟨_, rfl⟩
-  | some sn => exact ⟨_, rfl⟩
-
-example : displayPosition .default (fun _ => 1) [] 0 = .ok [] := by decide
-example : (displayPosition .default (fun _ => 1) ['a', '\n', 'b'] 2).isOk = true := by decide
-
-/-- F-FMT-1: displaying the only span of the empty input panics (`start.unwrap()` on `None`:
-`lines()` of the empty input yields nothing). -/
-theorem C14_counterexample_empty_input :
-    displaySpan .default (fun _ => 1) ⟨[], 0, 0⟩ = .panic ∧ (⟨[], 0, 0⟩ : Span).start ≤ 0 := by
-  decide
-
-/-- Displaying a `Span` never panics — PARTIAL: the input must not be empty (F-FMT-1 above is the
-only exception: `""` has the single span `0..0`). -/
-theorem C14_span_no_panic_partial (opt : FormatOption) (width : Char → Nat) (s : List Char)
-    (hs : s ≠ []) (a b : Nat) (hv : (⟨s, a, b⟩ : Span).Valid) :
+/-- Displaying a `Span` never panics: any input (the empty one included), any valid span, any
+option, any width function. -/
+theorem C14_span_no_panic (opt : FormatOption) (width : Char → Nat) (s : List Char)
+    (a b : Nat) (hv : (⟨s, a, b⟩ : Span).Valid) :
     ∃ out, displaySpan opt width ⟨s, a, b⟩ = .ok out := by
-  obtain ⟨sn, hsn⟩ := spanSnippet_ok width s hs a b hv
+  obtain ⟨sn, hsn⟩ := spanSnippet_ok width s a b hv
   exact ⟨render opt sn, by unfold displaySpan; rw [hsn]⟩
 
 example : (displaySpan .default (fun _ => 1) ⟨['a', '\n', 'b'], 0, 3⟩).isOk = true := by decide
 example : (⟨['a', '\n', 'b'], 0, 3⟩ : Span).Valid :=
   ⟨by decide, isBoundary_zero _, ⟨['a', '\n', 'b'], [], rfl, by decide⟩⟩
+/-- The empty input (F-FMT-1 before its repair): one empty line, numbered 1. -/
+example : spanSnippet (fun _ => 1) ⟨[], 0, 0⟩ =
+    .ok ⟨1, [.gutter, .text 1 [] (some []) [], .mark 0 []]⟩ := by decide
+example : displaySpan .default (fun _ => 1) ⟨[], 0, 0⟩ =
+    .ok [' ', ' ', '|', '\n', '1', ' ', '|', ' ', '\n', ' ', ' ', '|', ' ', '\n'] := by decide
 
-/-- Every numbered row of the display of a valid span carries a 1-based line number `n` of the
-input and, split into the parts before / inside / after the highlight, the text of line `n` with
-control pictures.  Holds in the F-FMT-3 cases too.  PARTIAL only in that the input is not empty
-(nothing is printed for the empty input, see F-FMT-1). -/
-theorem C14_numbers_partial (width : Char → Nat) (s : List Char) (hs : s ≠ []) (a b : Nat)
+/-- Displaying a `Position` never panics and always prints a snippet: any input (the empty one
+included), any position (end of input included), any option, any width function. -/
+theorem C14_position_no_panic (opt : FormatOption) (width : Char → Nat) (s : List Char) (p : Nat)
+    (hp : IsBoundary s p) :
+    ∃ sn, positionSnippet width s p = .ok (some sn) ∧
+      displayPosition opt width s p = .ok (render opt sn) := by
+  obtain ⟨sn, hsn⟩ := positionSnippet_ok width s p hp
+  exact ⟨sn, hsn, by unfold displayPosition; rw [hsn]⟩
+
+example : (displayPosition .default (fun _ => 1) ['a', '\n', 'b'] 3).isOk = true := by decide
+example : positionSnippet (fun _ => 1) [] 0 = .ok (some ⟨1, [.gutter, .text 1 [] none [], .mark 0 ['^']]⟩) := by
+  decide
+
+/-- Every numbered row of the display of a valid span carries a 1-based number `n` of a displayed
+line and, split into the parts before / inside / after the highlight, the text of line `n` with
+control pictures.  Every input, every valid span; holds in the F-FMT-3 cases too. -/
+theorem C14_numbers (width : Char → Nat) (s : List Char) (a b : Nat)
     (hv : (⟨s, a, b⟩ : Span).Valid) (sn : Snippet) (h : spanSnippet width ⟨s, a, b⟩ = .ok sn) :
     ∀ n pre hl post, Row.text n pre hl post ∈ sn.rows →
-      1 ≤ n ∧ ∃ line, (splitLines s)[n - 1]? = some line ∧
+      1 ≤ n ∧ ∃ line, (dispLines s)[n - 1]? = some line ∧
         visualize line = pre ++ hl.getD [] ++ post := by
   intro n pre hl post hmem
-  exact spanSnippet_rows_ok width s hs a b hv sn h _ hmem
+  exact spanSnippet_rows_ok width s a b hv sn h _ hmem
 
 example : spanSnippet (fun _ => 1) ⟨['a', '\n', 'b', '\t'], 0, 3⟩ =
     .ok ⟨1, [.mark 0 ['v'], .text 1 [] (some ['a', '␊']) [], .text 2 [] (some ['b']) ['␉'], .mark 0 ['^']]⟩ := by
   decide
+example : dispLines ['a', '\n', 'b', '\t'] = [['a', '\n'], ['b', '\t']] ∧ dispLines [] = [[]] := by decide
 
-/-- A span inside one line.  The input's lines are `before ++ [f ++ m ++ r] ++ after`, the span
+/-- A position in the line that holds it.  The displayed lines are
+`before ++ [f ++ r] ++ after` and the offset is after `f`: strictly inside the line (`r ≠ []`),
+or at the end of the last line (`after = []`), which is where the end of input belongs.  Then
+exactly: a gutter, the line under its 1-based number (nothing highlighted), and one `^` under
+the first cell after `f` — the cell of the character at the offset. -/
+theorem C14_position (width : Char → Nat) (s : List Char) (before after : List (List Char))
+    (f r : List Char) (hsplit : dispLines s = before ++ (f ++ r) :: after)
+    (hline : r ≠ [] ∨ after = []) :
+    positionSnippet width s (blen before.flatten + blen f) =
+      .ok (some ⟨ceilLog10 (before.length + 1),
+        [.gutter, .text (before.length + 1) (visualize f) none (visualize r),
+         .mark (strWidth width (visualize f)) ['^']]⟩) :=
+  positionSnippet_of_decomp width s before after f r hsplit hline
+
+example : positionSnippet (fun c => if c = '中' then 2 else 1) ['a', '\n', '中', 'b'] 5 =
+    .ok (some ⟨1, [.gutter, .text 2 ['中'] none ['b'], .mark 2 ['^']]⟩) := by decide
+example : dispLines ['a', '\n', '中', 'b'] = [['a', '\n']] ++ (['中'] ++ ['b']) :: [] := by decide
+/-- End of input (F-FMT-2 before its repair): `Position::new("abc", 3)` shows line 1 with `^`
+after `c`; after a final LF the last line is the one that ends with it. -/
+example : positionSnippet (fun _ => 1) ['a', 'b', 'c'] 3 =
+    .ok (some ⟨1, [.gutter, .text 1 ['a', 'b', 'c'] none [], .mark 3 ['^']]⟩) := by decide
+example : positionSnippet (fun _ => 1) ['a', '\n'] 2 =
+    .ok (some ⟨1, [.gutter, .text 1 ['a', '␊'] none [], .mark 2 ['^']]⟩) := by decide
+
+/-- Every position of every input satisfies the hypotheses of `C14_position`. -/
+theorem C14_position_coverage (s : List Char) (p : Nat) (hp : IsBoundary s p) :
+    ∃ before after f r, dispLines s = before ++ (f ++ r) :: after ∧ (r ≠ [] ∨ after = []) ∧
+      p = blen before.flatten + blen f :=
+  position_decomp s p hp
+
+example : IsBoundary ['a', '\n', '中', 'b'] 6 := ⟨['a', '\n', '中', 'b'], [], rfl, by decide⟩
+
+/-- A span inside one line.  The displayed lines are `before ++ [f ++ m ++ r] ++ after`, the span
 is `m` (possibly empty) and this is the line that holds it: `m ++ r ≠ []` (the start is strictly
-inside the line) or it is the last line (end of input).  Then exactly three rows are printed: a
-gutter, the line under its 1-based number with `m` highlighted, and carets under exactly the
-display cells of `m`, starting after the cells of `f`.
+inside the line) or it is the last line (end of input; the empty input).  Then exactly three rows
+are printed: a gutter, the line under its 1-based number with `m` highlighted, and carets under
+exactly the display cells of `m`, starting after the cells of `f`.
 PARTIAL — excluded by `hf`: the start is the first byte (`f = []`) of a line other than the first
 (`before ≠ []`), where the code draws the previous line instead (F-FMT-3). -/
 theorem C14_single_line_partial (width : Char → Nat) (s : List Char)
     (before after : List (List Char)) (f m r : List Char)
-    (hsplit : splitLines s = before ++ (f ++ m ++ r) :: after)
+    (hsplit : dispLines s = before ++ (f ++ m ++ r) :: after)
     (hline : m ++ r ≠ [] ∨ after = [])
     (hf : f ≠ [] ∨ before = []) :
     spanSnippet width ⟨s, blen before.flatten + blen f, blen before.flatten + blen f + blen m⟩ =
@@ -139,12 +172,12 @@ theorem C14_single_line_partial (width : Char → Nat) (s : List Char)
   have _ := hline
   exact spanSnippet_single width s before after f m r hsplit hf
 
-example : splitLines ['a', 'b', '\n', 'c', '中', 'd'] = [['a', 'b', '\n']] ++ (['c'] ++ ['中'] ++ ['d']) :: [] := by
+example : dispLines ['a', 'b', '\n', 'c', '中', 'd'] = [['a', 'b', '\n']] ++ (['c'] ++ ['中'] ++ ['d']) :: [] := by
   decide
 example : spanSnippet (fun c => if c = '中' then 2 else 1) ⟨['a', 'b', '\n', 'c', '中', 'd'], 4, 7⟩ =
     .ok ⟨1, [.gutter, .text 2 ['c'] (some ['中']) ['d'], .mark 1 ['^', '^']]⟩ := by decide
 
-/-- A span over several lines.  The input's lines are
+/-- A span over several lines.  The displayed lines are
 `before ++ [f ++ m1] ++ mid ++ [m2 ++ r] ++ after`; the span is `m1 ++ mid ++ m2` with its first
 character in the line `f ++ m1` (`m1 ≠ []`) and its last character in the line `m2 ++ r`
 (`m2 ≠ []`).  Then: a `v` over the first cell of the first character; that line under its number,
@@ -154,7 +187,7 @@ under the last cell of the last character.
 PARTIAL — excluded by `hf`: F-FMT-3 as above. -/
 theorem C14_multi_line_partial (width : Char → Nat) (s : List Char)
     (before mid after : List (List Char)) (f m1 m2 r : List Char)
-    (hsplit : splitLines s = before ++ (f ++ m1) :: (mid ++ (m2 ++ r) :: after))
+    (hsplit : dispLines s = before ++ (f ++ m1) :: (mid ++ (m2 ++ r) :: after))
     (hm1 : m1 ≠ []) (hm2 : m2 ≠ [])
     (hf : f ≠ [] ∨ before = []) :
     spanSnippet width ⟨s, blen before.flatten + blen f,
@@ -186,25 +219,25 @@ example (a b c d e : List Char) :
     innerOf [a, b, c, d, e] = (some (visualize a), none, true, some (visualize e)) :=
   ⟨rfl, rfl, rfl, rfl, rfl⟩
 
-example : splitLines ['x', 'a', '\n', 'b', '\n', '中', 'y'] =
+example : dispLines ['x', 'a', '\n', 'b', '\n', '中', 'y'] =
     [] ++ (['x'] ++ ['a', '\n']) :: ([['b', '\n']] ++ (['中'] ++ ['y']) :: []) := by decide
 example : spanSnippet (fun c => if c = '中' then 2 else 1) ⟨['x', 'a', '\n', 'b', '\n', '中', 'y'], 1, 8⟩ =
     .ok ⟨1, [.mark 1 ['v'], .text 1 ['x'] (some ['a', '␊']) [], .text 2 [] (some ['b', '␊']) [],
       .text 3 [] (some ['中']) ['y'], .mark 1 ['^']]⟩ := by decide
 
-/-- The two `_partial` theorems above leave out exactly F-FMT-3: every valid span of a non-empty
-input whose start is NOT the first byte of a line other than the first satisfies the hypotheses
-of `C14_single_line_partial` or of `C14_multi_line_partial`. -/
-theorem C14_partial_coverage (s : List Char) (hs : s ≠ []) (a b : Nat)
+/-- The two `_partial` theorems above leave out exactly F-FMT-3: every valid span of every input
+whose start is NOT the first byte of a line other than the first satisfies the hypotheses of
+`C14_single_line_partial` or of `C14_multi_line_partial`. -/
+theorem C14_partial_coverage (s : List Char) (a b : Nat)
     (hv : (⟨s, a, b⟩ : Span).Valid) (hnot : ¬ LaterLineStart s a) :
-    (∃ before after f m r, splitLines s = before ++ (f ++ m ++ r) :: after ∧
+    (∃ before after f m r, dispLines s = before ++ (f ++ m ++ r) :: after ∧
       (m ++ r ≠ [] ∨ after = []) ∧ (f ≠ [] ∨ before = []) ∧ a = blen before.flatten + blen f ∧
       b = blen before.flatten + blen f + blen m) ∨
     (∃ before mid after f m1 m2 r,
-      splitLines s = before ++ (f ++ m1) :: (mid ++ (m2 ++ r) :: after) ∧
+      dispLines s = before ++ (f ++ m1) :: (mid ++ (m2 ++ r) :: after) ∧
       m1 ≠ [] ∧ m2 ≠ [] ∧ (f ≠ [] ∨ before = []) ∧ a = blen before.flatten + blen f ∧
       b = blen before.flatten + blen (f ++ m1) + blen mid.flatten + blen m2) :=
-  span_decomp_canonical s hs a b hv hnot
+  span_decomp_canonical s a b hv hnot
 
 example : LaterLineStart ['a', 'b', 'c', '\n', 'd', 'e', 'f'] 4 :=
   ⟨[['a', 'b', 'c', '\n']], ['d', 'e', 'f'], [], by decide, by decide, by decide⟩
@@ -215,7 +248,7 @@ theorem C14_counterexample_line_start :
     spanSnippet (fun _ => 1) ⟨['a', 'b', 'c', '\n', 'd', 'e', 'f'], 4, 7⟩ =
       .ok ⟨1, [.mark 4 ['v'], .text 1 ['a', 'b', 'c', '␊'] (some []) [],
                .text 2 [] (some ['d', 'e', 'f']) [], .mark 2 ['^']]⟩ ∧
-    splitLines ['a', 'b', 'c', '\n', 'd', 'e', 'f'] = [['a', 'b', 'c', '\n'], ['d', 'e', 'f']] := by
+    dispLines ['a', 'b', 'c', '\n', 'd', 'e', 'f'] = [['a', 'b', 'c', '\n'], ['d', 'e', 'f']] := by
   decide
 
 /-- F-FMT-3 in general: a non-empty span that starts on the first byte of the line after `prev` is
@@ -223,7 +256,7 @@ drawn from `prev` — whose number is shown first, with nothing highlighted and 
 last cell — although its first character is on the next line. -/
 theorem C14_line_start_drawn_from_previous_line (width : Char → Nat) (s : List Char)
     (before mid after : List (List Char)) (prev m2 r : List Char)
-    (hsplit : splitLines s = before ++ prev :: (mid ++ (m2 ++ r) :: after))
+    (hsplit : dispLines s = before ++ prev :: (mid ++ (m2 ++ r) :: after))
     (hprev : prev ≠ []) (hm2 : m2 ≠ []) :
     ∃ rest, spanSnippet width ⟨s, blen before.flatten + blen prev,
         blen before.flatten + blen prev + blen mid.flatten + blen m2⟩ =
@@ -235,51 +268,7 @@ theorem C14_line_start_drawn_from_previous_line (width : Char → Nat) (s : List
   simp only [List.append_nil] at h
   exact ⟨_, by rw [h]; rfl⟩
 
-example : splitLines ['a', 'b', 'c', '\n', 'd', 'e', 'f'] =
+example : dispLines ['a', 'b', 'c', '\n', 'd', 'e', 'f'] =
     [] ++ ['a', 'b', 'c', '\n'] :: ([] ++ (['d', 'e', 'f'] ++ []) :: []) := by decide
-
-/-- A position strictly inside a line `f ++ r` (`r ≠ []`: the offset is not the end of input):
-a gutter, the line under its 1-based number (nothing highlighted), and one `^` under the first
-cell of the character at the offset.
-PARTIAL — excluded by `hr`: the end of input (F-FMT-2 below). -/
-theorem C14_position_partial (width : Char → Nat) (s : List Char) (before after : List (List Char))
-    (f r : List Char) (hsplit : splitLines s = before ++ (f ++ r) :: after) (hr : r ≠ []) :
-    positionSnippet width s (blen before.flatten + blen f) =
-      .ok (some ⟨ceilLog10 (before.length + 1),
-        [.gutter, .text (before.length + 1) (visualize f) none (visualize r),
-         .mark (strWidth width (visualize f)) ['^']]⟩) := by
-  unfold positionSnippet
-  rw [allLines_eq, hsplit]
-  simp only []
-  have := positionLoop_of_decomp width (blen before.flatten + blen f) before f r after 0 0 hr (by omega)
-  simpa [snippetSinglePos] using this
-
-example : positionSnippet (fun c => if c = '中' then 2 else 1) ['a', '\n', '中', 'b'] 5 =
-    .ok (some ⟨1, [.gutter, .text 2 ['中'] none ['b'], .mark 2 ['^']]⟩) := by decide
-example : splitLines ['a', '\n', '中', 'b'] = [['a', '\n']] ++ (['中'] ++ ['b']) :: [] := by decide
-
-/-- `C14_position_partial` leaves out exactly the end of input: every other position satisfies its
-hypotheses. -/
-theorem C14_position_coverage (s : List Char) (p : Nat) (hp : IsBoundary s p) (hlt : p < blen s) :
-    ∃ before after f r, splitLines s = before ++ (f ++ r) :: after ∧ r ≠ [] ∧
-      p = blen before.flatten + blen f :=
-  position_decomp s p hp hlt
-
-example : IsBoundary ['a', '\n', '中', 'b'] 5 ∧ 5 < blen ['a', '\n', '中', 'b'] :=
-  ⟨⟨['a', '\n', '中'], ['b'], rfl, by decide⟩, by decide⟩
-
-/-- F-FMT-2 on the witness of DESIGN §7: `Position::new("abc", 3).to_string()` is empty. -/
-theorem C14_counterexample_position_eoi :
-    displayPosition .default (fun _ => 1) ['a', 'b', 'c'] 3 = .ok [] ∧ blen ['a', 'b', 'c'] = 3 := by
-  decide
-
-/-- F-FMT-2 in general: at end of input nothing at all is rendered, for every input, option
-and width (`pos + line.len() > position.pos()` is never true there). -/
-theorem C14_position_eoi_renders_nothing (opt : FormatOption) (width : Char → Nat) (s : List Char) :
-    displayPosition opt width s (blen s) = .ok [] := by
-  unfold displayPosition
-  rw [positionSnippet_eoi]
-
-example : displayPosition .bracket (fun _ => 2) ['a', '\n'] 2 = .ok [] := by decide
 
 end PestTyped
